@@ -19,7 +19,10 @@ OPW = {'en': {'+': 'plus', '-': 'minus', '\\cdot': 'times', '\\times': 'times', 
 OPS = ['+', '-', '\\cdot', '\\times', '/', '=', '\\ne', '\\le', '<', '>', '\\to', '\\subset', '\\neq', '\\geq',
        '\\Rightarrow', '\\cup', ':']
 ELEMS = ['a', 'b', 'x', '1', '2', '\\alpha', '\\beta', '\\sum', 'f(x)', 'x^2', 'a_{i}', '\\frac{a}{b}', '\\sqrt{x}',
-         '\\mathrm{hopQ}', '\\zzunkm', '\\int_0^1', '\\left(x\\right)', '\\%', '\\ldots']
+         '\\mathrm{hopQ}', '\\zzunkm', '\\int_0^1', '\\left(x\\right)', '\\%', '\\ldots',
+         # an inner environment without cell / row separators is part of the run of maths it stands in
+         '\\begin{pmatrix} a \\end{pmatrix}', '\\begin{split}x\\end{split}', '\\begin{aligned} y^2 \\end{aligned}',
+         '\\begin{zzmenv}b\\end{zzmenv}']
 SPACES = ['\\;', '\\quad', '\\,', '~', '\\ ', '\\qquad', '\\:']
 PUNCT = ['.', ',', ';', ':']
 ENVS = ['align', 'equation', '\\[', 'align*', 'eqnarray', 'gather', '$$', 'displaymath', 'equation*', 'flalign',
